@@ -10,7 +10,8 @@ Inductive lop :=
 | LUse (h code : Z)
 | LRace (hs codes : list Z) (lockafter : bool)
 | LFailOpen (code : Z) (lockleft : bool)
-| LExtOpen (h code : Z) (lockafter : bool).
+| LExtOpen (h code : Z) (lockafter : bool)
+| LScanFail (h code : Z) (lockafter : bool).   (* an open whose directory scan is made to fail *)
 
 Definition plop : P lop :=
   t <- pz ;;
@@ -20,12 +21,16 @@ Definition plop : P lop :=
   else if t =? 4 then (hs <- pzs ;; cs <- pzs ;; l <- pbool ;; ret (LRace hs cs l))
   else if t =? 5 then (c <- pz ;; l <- pbool ;; ret (LFailOpen c l))
   else if t =? 6 then (h <- pz ;; c <- pz ;; l <- pbool ;; ret (LExtOpen h c l))
+  else if t =? 7 then (h <- pz ;; c <- pz ;; l <- pbool ;; ret (LScanFail h c l))
   else (fun _ => None).
 
 (** a complete open attempt of the model: try the lock, then scan (which succeeds) *)
 Definition model_open (s : lstate) (h : Z) : lstate * Z :=
   let '(s1, c) := lstep s (ETryLock h) in
   if c =? 0 then lstep s1 (EScan h true) else (s1, c).
+Definition model_open_scanfail (s : lstate) (h : Z) : lstate * Z :=
+  let '(s1, c) := lstep s (ETryLock h) in
+  if c =? 0 then lstep s1 (EScan h false) else (s1, c).
 Definition model_close (s : lstate) (h : Z) : lstate * Z :=
   let '(s1, c) := lstep s (ECloseFlag h) in
   if c =? 0 then lstep s1 (ERelease h) else (s1, c).
@@ -43,6 +48,10 @@ Fixpoint lcheck (s : lstate) (i : Z) (ops : list lop) : list Z :=
           (* another process: it opens, and if that succeeds closes again before exiting *)
           let '(s1, c) := model_open s h in
           let s' := if c =? 0 then fst (model_close s1 h) else s1 in
+          if (c =? code) && Bool.eqb (lock s') la then lcheck s' (i + 1) t
+          else v_violation [i; c; if lock s' then 1 else 0]
+      | LScanFail h code la =>
+          let '(s', c) := model_open_scanfail s h in
           if (c =? code) && Bool.eqb (lock s') la then lcheck s' (i + 1) t
           else v_violation [i; c; if lock s' then 1 else 0]
       | LClose h code la =>
